@@ -961,18 +961,23 @@ def _persist(run, P):
     for fq in (f"{PY}.PythonNameManager.__getitem__",
                "dagrt.codegen.fortran.FortranNameManager.__getitem__"):
         gfn = P.func(fq)
-        ok = False
-        for n in ast.walk(gfn.node):
-            if isinstance(n, ast.If) and isinstance(n.test, ast.Call):
-                tgt = P.resolve_name(gfn, dotted(n.test.func) or "")
-                if isinstance(tgt, Func) and tgt.fq == "dagrt.utils.is_state_variable":
-                    b = "\n".join(ast.unparse(s_) for s_ in n.body)
-                    rest = n.orelse
-                    if not rest and n in gfn.node.body:
-                        rest = gfn.node.body[gfn.node.body.index(n) + 1:]
-                    o = "\n".join(ast.unparse(s_) for s_ in rest)
-                    ok = "name_global" in b and "name_local" not in b \
-                        and "name_local" in o and "name_global" not in o
+        from .util import split_by
+
+        def is_isv(t):
+            try:
+                e_ = ast.parse(t, mode="eval").body
+            except SyntaxError:
+                return False
+            if not isinstance(e_, ast.Call):
+                return False
+            tgt = P.resolve_name(gfn, dotted(e_.func) or "")
+            return isinstance(tgt, Func) and tgt.fq == "dagrt.utils.is_state_variable"
+
+        _, wt, wf = split_by(gfn.node, is_isv)
+        b = "\n".join(ast.unparse(s_) for s_ in wt)
+        o = "\n".join(ast.unparse(s_) for s_ in wf)
+        ok = "name_global" in b and "name_local" not in b \
+            and "name_local" in o and "name_global" not in o
         run.ob("C01.persist", gfn, gfn.node, ok,
                construct="is_state_variable(name) -> global storage, else local storage",
                why="persistent variables live in instance/state storage, per-step "
